@@ -1,6 +1,7 @@
 """C02 — every counting algorithm returns the same value for the same x."""
 from ..runner import Stream
 from .. import gen
+from ..pi_common import next_prime as pc_next_prime
 
 ALL = ["cache", "primesieve", "legendre", "meissel", "lehmer", "lmo1", "lmo2", "lmo3", "lmo4", "lmo5",
        "lmo_parallel", "dr64", "dr128raw", "gourdon64", "gourdon128raw", "pi"]
@@ -48,6 +49,21 @@ def streams(ctx):
     n_huge = 8 if ctx.quick else 120
     for x in gen.structured_x(rng, 10 ** 13, 10 ** 15 if ctx.quick else 10 ** 16, n_huge):
         ops2.append("algall %d 16 %s" % (x, " ".join(fast)))
+    # root transitions: x = k^n - 1, k^n are exactly where isqrt / iroot<3> / iroot<4> / iroot<6> (hence y, a, the
+    # loop bounds of every algorithm) change; ALL cubes, fourth and sixth powers up to 1e8, sampled beyond
+    mid = [n for n in ALL if n not in SLOW and n != "cache"]
+    for n, kmax in ((3, 464), (4, 100), (6, 21)):
+        for k in range(4, kmax + 1):
+            if not ctx.quick or n != 3 or k % 2 == 1 or k < 80:
+                for d in (-1, 0):
+                    ops2.append("algagree %d %d %s" % (k ** n + d, rng.choice((1, 4)), " ".join(mid)))
+    for n, kmax in ((2, 10 ** 6), (3, 10 ** 4), (4, 10 ** 3), (6, 100)):
+        for _ in range(10 if ctx.quick else 150):
+            k = rng.randint(max(8, int(kmax ** 0.5)), kmax)
+            if rng.random() < 0.5:
+                k = pc_next_prime(k)
+            for d in (-1, 0):
+                ops2.append("algagree %d %d %s" % (k ** n + d, rng.choice((1, 16)), " ".join(mid if k ** n < 10 ** 10 else fast)))
     for x in (-10 ** 30, -2 ** 63, -1, 0, 1, 2, 3):
         ops2.append("algall %d 2 pi dr128 gourdon128" % x)
 
